@@ -94,8 +94,138 @@ def sweep(pid, tier, spec_dir, mc_runs, binary, wd, drivers, module, head, rule_
     return rc
 
 
+RECV_MC = """SPECIFICATION Spec
+CONSTANTS NThreads = 2 MaxFrag = 8800 MaxDepth = %d
+CONSTRAINT Constr
+INVARIANT StoreSound
+PROPERTY P_C04
+CHECK_DEADLOCK FALSE
+"""
+RECV_HEAD = """SPECIFICATION TSpec
+CONSTANTS NThreads = 2 MaxFrag = 8800 TraceFile = "@TRACE@"
+"""
+
+
+def run_crashsafe(binary, test, env, wd, stem, mem_kb=8000000, max_crashes=40):
+    """Runs an adversarial driver in child processes under an address-space limit. The driver writes the index of the
+    case about to run to <stem>.progress; an abnormal exit (runtime fatal error, OOM kill) is attributed to that case,
+    recorded as a `crash` row, and the driver is resumed after it."""
+    import subprocess
+    trace = os.path.join(wd, stem + ".ndjson")
+    prog = os.path.join(wd, stem + ".progress")
+    for f in (trace, prog):
+        if os.path.exists(f):
+            os.remove(f)
+    frm, crashes = 0, 0
+    while True:
+        e = dict(V.GOENV)
+        e.update({k: str(v) for k, v in env.items()})
+        e.update({"VERIF_OUT": wd, "VERIF_FROM": str(frm), "VERIF_SEED": str(V.seed())})
+        cmd = "ulimit -v %d; exec %s -test.run '^%s$' -test.timeout 1500s -test.count 1" % (mem_kb, binary, test)
+        p = subprocess.run(["bash", "-c", cmd], cwd=wd, env=e, stdout=subprocess.PIPE, stderr=subprocess.STDOUT, text=True, errors="replace")
+        done = False
+        if os.path.exists(trace):
+            with open(trace) as f:
+                tail = f.read()[-400:]
+            done = '"ev":"done"' in tail
+        if p.returncode == 0 and done:
+            break
+        if not os.path.exists(prog):
+            raise V.Machinery("driver %s died before its first case (rc=%d):\n%s" % (test, p.returncode, p.stdout[-3000:]))
+        line = open(prog).read().strip()
+        idx = int(line.split()[0])
+        if idx <= frm:
+            raise V.Machinery("driver %s makes no progress after case %d:\n%s" % (test, frm, p.stdout[-2000:]))
+        # drop a possibly half-written last line, then record the crash
+        rows = []
+        for l in open(trace):
+            try:
+                rows.append(json.loads(l))
+            except Exception:
+                pass
+        reason = "fatal" if "fatal error" in p.stdout else "killed"
+        m = [x for x in p.stdout.splitlines() if "fatal error" in x or "runtime:" in x]
+        rows.append({"ev": "crash", "i": idx, "case": line[:300], "detail": (m[0] if m else reason)[:200], "rc": p.returncode})
+        V.write_ndjson(trace, rows)
+        crashes += 1
+        frm = idx
+        V.log("  %s: abnormal exit at case %d (%s); resuming" % (test, idx, reason))
+        if crashes >= max_crashes:
+            rows.append({"ev": "done", "cases": idx, "aborted": True})
+            V.write_ndjson(trace, rows)
+            break
+    return trace
+
+
+def run_c04(tier):
+    import time, shutil
+    t0 = time.time()
+    th = tier == "thorough"
+    gen_registry()
+    wd = V.workdir("C04")
+    V.copy_spec("tlv", wd)
+    breg = V.build_harness(wd, pkg="./reg")
+    os.rename(breg, os.path.join(wd, "reg.test"))
+    breg = os.path.join(wd, "reg.test")
+    bh = V.build_harness(wd)
+    cfg = os.path.join(wd, "mc_recv.cfg")
+    open(cfg, "w").write(RECV_MC % (3 if th else 2))
+    mc = V.tlc(wd, "RecvMC.tla", "mc_recv.cfg", workers=V.NCPU, timeout=1800)
+    if mc.status != "ok":
+        raise V.Machinery("RecvMC did not pass: %s %s\n%s" % (mc.status, mc.name, mc.out[-2000:]))
+    traces = [run_crashsafe(breg, "TestC04Dec", {"VERIF_VARIANTS": 12 if th else 3, "VERIF_TRUNC": 120 if th else 30}, wd, "c04dec"),
+              run_crashsafe(breg, "TestC04Extra", {"VERIF_TRUNC": 2000 if th else 300}, wd, "c04extra"),
+              run_crashsafe(bh, "TestC04Recv", {}, wd, "c04recv")]
+    events, viols, classes, samples = 0, [], {}, []
+    for tf in traces:
+        rows = [r for r in V.read_ndjson(tf)]
+        n, vs = V.validate_collect(wd, rows, "RecvTrace.tla", RECV_HEAD, label=os.path.basename(tf)[:-7])
+        events += n
+        for r in rows:
+            if "class" in r:
+                classes[r["class"]] = classes.get(r["class"], 0) + 1
+        samples += [r for r in rows if r.get("ev") in ("dec", "frame")][:2]
+        viols += [(rows[i], rules) for (i, rules) in vs]
+    rc = 0
+    for i, (row, rules) in enumerate(viols):
+        if i < 25:
+            path = V.save_violation("C04", [row], {"rules": rules, "event": row})
+            print("VIOLATION property=C04 replay=%s" % path)
+            V.log("  %s: %s" % (" ".join(rules), json.dumps(row)[:500]))
+        rc = 1
+    missing = [c for c in ("valid", "len", "type", "nested", "trunc", "frag", "token", "stream") if classes.get(c, 0) == 0]
+    if missing:
+        raise V.Machinery("mutation classes never exercised: %s" % missing)
+    V.write_evidence("C04", tier, "model_checking", {
+        "states": max(1, mc.distinct), "transitions": max(1, mc.generated), "traces_validated_against_impl": 3 if rc == 0 else 0,
+        "evaluations": events, "distinct_nontrivial": sum(v for k, v in classes.items() if k != "valid"),
+        "rule": "every decoder of the registry (70 generated models, discovered at check time) plus the packet reader and the standalone name/component decoders, "
+                "fed through the contiguous and the segmented reader with structure-aware mutants of valid encodings (every TLV-LENGTH replaced by 15 boundary/huge values, "
+                "type confusion, nested-length disagreement, truncation at many offsets); the receive path (handleIncomingFrame and readTlvStream->handleIncomingFrame) with the same mutants of "
+                "valid frames, 243 FragIndex/FragCount/Sequence combinations, PIT-token lengths and thread ids; each call under recover(), an allocation budget (64 x input + 1 MiB) and a 2 s "
+                "watchdog, in child processes under an 8 GB address-space limit so that runtime fatal errors are attributed to the case; every mutant is a distinct non-trivial case",
+        "classes": classes, "samples": samples[:6], "checker_cmd": "tlc RecvMC.tla ; tlc -workers 1 RecvTrace.tla (CollectViol)", "exhaustive": False},
+        time.time() - t0, violations=len(viols),
+        assumptions=["TLC, JVM, Go runtime trusted", "unstructured random bytes beyond the enumerated mutation classes are a fuzzer's job, not covered by this family (DESIGN C04 residual)",
+                     "sync and certificate message decoders are covered as generated models (svs_2024, ndncert_0_3) of the registry"])
+    if rc == 0:
+        shutil.rmtree(wd, ignore_errors=True)
+    return rc
+
+
+def match_c12(pid, v):
+    last = v["segment"][-1]
+    for f in V.open_findings(pid):
+        if (f["id"] == "F33" and "I_C12tamper" in v.get("rules", []) and last.get("ev") == "tamper" and last.get("kind") == "interest" and last.get("signer") == "none"
+                and last.get("region") == "params" and last.get("off") == 0 and last.get("outcome") == "accepted"):
+            return f
+    return None
+
+
 def run(pid, tier, replay=None):
     th = tier == "thorough"
+    if pid == "C04":
+        return run_c04(tier)
     if pid == "C13":
         gen_registry()
         wd = V.workdir(pid)
@@ -110,4 +240,38 @@ def run(pid, tier, replay=None):
             ["TLC, JVM, Go runtime trusted", "private packet models (Interest/Data/LpPacket) are exercised through ReadPacket in C03/C04, not here",
              "'the checked-in generated code is exactly what the generator produces' is a file comparison with no state or oracle a TLA+ model adds: not decided by this family (DESIGN 4 C13)"],
             match=match_c13)
+    if pid in ("C03", "C12"):
+        wd = V.workdir(pid)
+        V.copy_spec("tlv", wd)
+        # 1. TLC enumerates packet shapes from the boundary sets (and checks the oracle's self-consistency)
+        n = 2500 if th else 350
+        with open(os.path.join(wd, "shapes.cfg"), "w") as f:
+            f.write('SPECIFICATION Spec\nCONSTANTS OutFile = "shapes.ndjson" NData = %d NInterest = %d\nINVARIANT OracleSound\nCHECK_DEADLOCK FALSE\n' % (n, n))
+        g = V.tlc(wd, "TlvMC.tla", "shapes.cfg", workers=1, timeout=1800, tseed=V.seed())
+        if g.status != "ok" or not os.path.exists(os.path.join(wd, "shapes.ndjson")):
+            raise V.Machinery("TlvMC did not produce shapes: %s %s\n%s" % (g.status, g.name, g.out[-2000:]))
+        binary = V.build_harness(wd)
+        head = 'SPECIFICATION TSpec\nCONSTANTS TraceFile = "@TRACE@" Which = "%s"\n' % pid
+
+        def short(r):
+            r = dict(r)
+            return r
+        rc = sweep(pid, tier, "tlv", [], binary, wd,
+            [("TestTlvShapes", {"VERIF_SHAPES": os.path.join(wd, "shapes.ndjson"), "VERIF_TAMPER": 200 if th else 24}, "tlv.ndjson")], "TlvTrace.tla", head,
+            ("%d Data and %d Interest shapes drawn by TLC (TlvMC) field by field from boundary sets: 0..3 components of types {1,8,32,50,54,65535} and value lengths "
+             "{0,1,5,252,253,254,255,256,300,1000}, every optional field absent / boundary-valued, content and parameters of 0..7000 bytes in 1..3 buffers, signers none/SHA-256/HMAC/ECDSA/RSA; "
+             "each built through the packet API, walked by an independent TLV reader, decoded contiguous and at up to 11 segmentations, compared field by field, and judged by the Tlv layout oracle "
+             "(exact total/outer/name lengths, covered and digested ranges); " % (n, n)) +
+            ("C12 additionally: signer input = parser's covered bytes = oracle ranges, validator accepts, and single-bit flips inside signed portion / signature value / parameters are never accepted"
+             if pid == "C12" else "C03: plus Name.Bytes / NameFromBytes agreement with the packet encoder"),
+            ["TLC, JVM, Go runtime, crypto/* trusted", "SignatureInfo and SignatureValue lengths are taken as observed parameters of the shape (ECDSA signatures vary in length)",
+             "field VALUES are compared for equality after the round trip; the oracle speaks about structure and lengths (DESIGN C03 residual)"],
+            match=match_c12 if pid == "C12" else None)
+        ev_path = os.path.join(V.VERIF, "evidence", pid + ".json")
+        e = json.load(open(ev_path))
+        e["coverage"]["states"] = max(1, g.distinct)
+        e["coverage"]["transitions"] = max(1, g.generated)
+        e["coverage"]["model_checking"] = {"TlvMC": {"distinct": g.distinct, "generated": g.generated, "shapes": 2 * n, "wall_s": round(g.wall, 1)}}
+        json.dump(e, open(ev_path, "w"), indent=1)
+        return rc
     raise V.Machinery("not built yet: " + pid)
